@@ -29,16 +29,30 @@ Theorem C38_roundtrip :
 Proof. exact roundtrip_id. Qed.
 Print Assumptions C38_roundtrip.
 
-(* The restart step read from a pvd file is the numerically largest time step listed, and
-   the files imported are exactly the files listed for that step. *)
+(* The restart entry read from a pvd file is the one with the numerically largest timestep
+   attribute (whatever was passed as write_pvd(times=...): physical times, in units of
+   1/unit; by default the step indices), the files imported are exactly the files LISTED
+   with that timestep, and the returned index is int(float(timestep)). *)
 Theorem C38_pvd_latest :
-  forall (F : Type) (entries : list (Z * F)),
+  forall (F : Type) (unit : Z) (entries : list (Z * F)),
     entries <> [] ->
     exists m,
-      restart_files entries = Some (m, map snd (filter (fun e => Z.eqb (fst e) m) entries)) /\
+      restart_files unit entries
+      = Some (Z.quot m unit, map snd (filter (fun e => Z.eqb (fst e) m) entries)) /\
       In m (map fst entries) /\ Forall (fun e => (fst e <= m)%Z) entries.
 Proof. exact @restart_latest. Qed.
 Print Assumptions C38_pvd_latest.
+
+(* Whenever the most recent export was written at a time larger than all earlier ones, the
+   files imported are exactly the files of that most recent export — for ANY times
+   (non-integer, larger than the number of steps, equal to another step's index). *)
+Theorem C38_pvd_most_recent :
+  forall (F : Type) (unit : Z) (older : list (Z * F)) (t : Z) (last : list F),
+    last <> [] ->
+    Forall (fun e => (fst e < t)%Z) older ->
+    exists i, restart_files unit (older ++ map (fun f => (t, f)) last) = Some (i, last).
+Proof. exact @restart_most_recent. Qed.
+Print Assumptions C38_pvd_most_recent.
 
 (* Time information: after ANY non-empty sequence of (time, dt) writes by a time manager
    with an empty history, the file on disk loaded by any other time manager gives back the
@@ -88,5 +102,7 @@ Proof. repeat split; vm_compute; reflexivity. Qed.
 (* one grid mixing a triangle between two quads and a pentagon *)
 Example C38_nonvacuous_mixed_grid :
   cell_ids [[4; 3; 5; 4]; [3]]%Z = [[1; 4]; [0; 3]; [2]] /\
-  restart_files [(8, 0); (9, 1); (10, 2); (10, 3)]%Z = Some (10, [2; 3])%Z.
-Proof. split; vm_compute; reflexivity. Qed.
+  restart_files 1%Z [(8, 0); (9, 1); (10, 2); (10, 3)]%Z = Some (10, [2; 3])%Z /\
+  (* steps 0..3 written at times 0, 0.5, 1.0, 1.5 (unit 1/2): the files of step 3 *)
+  restart_files 2%Z [(0, 0); (1, 1); (2, 2); (3, 3)]%Z = Some (1, [3])%Z.
+Proof. repeat split; vm_compute; reflexivity. Qed.
